@@ -123,7 +123,7 @@ def run_mutants(prop, tier, base, seed, jobs):
     return out
 
 
-def check(prop, tier, seed, jobs, mutants=True, quiet=False):
+def check(prop, tier, seed, jobs, mutants=True, quiet=False, evidence=True):
     t0 = time.time()
     mod = load_rule(prop)
     prog, res = analyse(prop, tier)
@@ -150,7 +150,9 @@ def check(prop, tier, seed, jobs, mutants=True, quiet=False):
     extra['analysis_errors'] = list(res.errors)
     # obligations whose verdict is a finding are not discharged
     wall = time.time() - t0
-    path = report.write_evidence(
+    path = '(not written)'
+    if evidence:
+      path = report.write_evidence(
         prop, tier, seed, res, wall, mod.EXPLANATION,
         getattr(mod, 'ASSUMPTIONS', []) + [
             'the ast of the working tree is what the interpreter runs '
@@ -184,7 +186,7 @@ def check(prop, tier, seed, jobs, mutants=True, quiet=False):
             print('KNOWN-FINDING: property=%s %s [%s @ %s]' % (
                 prop, text, f.ident, f.where))
     for n, f in enumerate(violations):
-        rp = report.write_replay(f, n)
+        rp = report.write_replay(f, n) if evidence else '-'
         print('FINDING %s %s at %s: %s' % (prop, f.ident, f.where, f.message))
         print('VIOLATION property=%s replay=%s' % (prop, rp))
     for e in res.errors:
@@ -216,6 +218,9 @@ def main(argv=None):
                     choices=['quick', 'thorough'])
     ap.add_argument('--replay')
     ap.add_argument('--no-mutants', action='store_true')
+    ap.add_argument('--no-evidence', action='store_true',
+                    help='do not (re)write the evidence/replay files '
+                         '(used when analysing scratch trees)')
     ap.add_argument('--jobs', type=int, default=0)
     args = ap.parse_args(argv)
     try:
@@ -230,7 +235,8 @@ def main(argv=None):
             ap.error('property id required')
         prop = args.prop.upper()
         code, res, mut = check(prop, args.tier, seed, jobs,
-                               mutants=not args.no_mutants)
+                               mutants=not args.no_mutants,
+                               evidence=not args.no_evidence)
         return code
     except AnalysisError as e:
         print('ANALYSIS-ERROR property=%s anchor=%s %s' % (
